@@ -10,7 +10,7 @@ Lemma C08_requests_complete_holds : forall c tr d x re, clean (run c tr) -> tain
     m_final y = Some OResult /\
     match m_kind y with
     | MMap _ => m_idx y = length (m_els y)
-    | _ => tasks_of s m = (if m_bad y then 0 else m_num y)
+    | _ => tasks_of s m = ngood (m_bad y) (m_num y)
     end.
 Proof.
   intros c tr d x re Hc Hti Hx Hk Hf s. subst s.
@@ -27,8 +27,8 @@ Proof.
   - split; [reflexivity|].
     destruct HF as [HF|[HF|HF]]; try congruence.
     destruct (m_kind y); try exact HF.
-    + destruct HP as [_ HP]. rewrite <- HN, HP. destruct (m_bad y); [reflexivity|exact HF].
-    + destruct HP as [_ HP]. rewrite <- HN, HP. destruct (m_bad y); [reflexivity|exact HF].
+    + destruct HP as [_ HP]. rewrite <- HN, HP, HF. reflexivity.
+    + destruct HP as [_ HP]. rewrite <- HN, HP, HF. reflexivity.
   - destruct HF.
   - destruct HF as [HF|HF]; congruence.
 Qed.
